@@ -116,7 +116,14 @@ def main(argv=None):
             return setup(args.prop)
         if len(args.prop) != 1:
             ap.error('exactly one property id')
-        return check(args.prop[0].upper(), args.tier, args.replay)
+        pid = args.prop[0].upper()
+        if args.replay:
+            # a replay file written by a sub-check (replays/C26S-....json) is replayed by that sub-check, whichever
+            # of the property's ids was given on the command line
+            owner = Path(args.replay).name.split('-')[0].upper()
+            if owner != pid and (VERIF / 'harness' / 'props' / f'{owner.lower()}.py').exists():
+                pid = owner
+        return check(pid, args.tier, args.replay)
     except Infra as exc:
         log(f'INFRASTRUCTURE FAILURE: {exc}')
         return 2
